@@ -64,8 +64,9 @@ def cmp(out, case, what, impl, model, spec):
             out.disagree(dict(case, query=k), f"{what} {k} = {v!r}, model {model[k]!r}")
 
 
-def check_tree(ctx, out, spec, tag):
-    tree = adapter.build(spec, ctx.pool, typed=True)
+def check_tree(ctx, out, spec, tag, levelorder=False):
+    # levelorder: same tree, created out of document order (registry order != pre-order)
+    tree = (adapter.build_levelorder if levelorder else adapter.build)(spec, ctx.pool, typed=True)
     ser = adapter.Serials()
     ser.by_obj[id(tree.system_root)] = 0
     ser.keep.append(tree.system_root)
@@ -79,11 +80,11 @@ def check_tree(ctx, out, spec, tag):
     for rec in resp["nodes"]:
         n = nodes[rec["id"]]
         for k, (m, s) in zip(KINDS, rec["child"]):
-            case = dict(kind="child", spec=spec, node=rec["id"], k=k)
+            case = dict(kind="child", spec=spec, node=rec["id"], k=k, levelorder=levelorder)
             out.count((tag, repr(spec), rec["id"], "c", k), nontriv)
             cmp(out, case, f"node {rec['id']} kind={k!r}", impl_child(n, k, ser), m, s)
         for ak, (m, s) in zip((False, True), rec["sib"]):
-            case = dict(kind="sib", spec=spec, node=rec["id"], any_kind=ak)
+            case = dict(kind="sib", spec=spec, node=rec["id"], any_kind=ak, levelorder=levelorder)
             out.count((tag, repr(spec), rec["id"], "s", ak), nontriv)
             cmp(out, case, f"node {rec['id']} any_kind={ak}", impl_sib(n, ak, ser), m, s)
     for k, (m, s, it_m, it_s) in zip(KINDS, resp["tree"]):
@@ -94,7 +95,7 @@ def check_tree(ctx, out, spec, tag):
             "last_child": g(lambda: (lambda n: None if n is None else ser.of(n))(tree.last_child(ka))),
             "has_children": g(lambda: tree.system_root.has_children(ka)),
         }
-        case = dict(kind="tree", spec=spec, k=k)
+        case = dict(kind="tree", spec=spec, k=k, levelorder=levelorder)
         out.count((tag, repr(spec), "t", k), nontriv)
         cmp(out, case, f"tree kind={k!r}", impl, m, s)
         it = g(lambda: adapter.ids(list(tree.iter_by_type(ka)), ser))
@@ -116,6 +117,7 @@ def run(ctx):
     n_ex = 5 if ctx.thorough else 4
     for spec in CORPUS:
         check_tree(ctx, out, spec, "corpus")
+        check_tree(ctx, out, spec, "corpus-lo", levelorder=True)
     for n in range(0, n_ex + 1):
         for shape in gen.forests(n):
             for ks in itertools.product("abc", repeat=n):
@@ -129,6 +131,7 @@ def run(ctx):
         cnt = itertools.count()
         spec = gen.label_forest(shape, ({"a": next(cnt) % 12, "k": ctx.rng.choice("abc"), "did": 7000 + next(cnt)} for _ in range(n)))
         check_tree(ctx, out, spec, "rnd")
+        check_tree(ctx, out, spec, "rnd-lo", levelorder=True)
         out.dist["random_tree"] += 1
     return out
 
@@ -143,5 +146,5 @@ def replay(ctx, rp):
     from props.c10 import tuplify_d
 
     out = core.Outcome()
-    check_tree(ctx, out, tuplify_d(rp["case"]["spec"]), "replay")
+    check_tree(ctx, out, tuplify_d(rp["case"]["spec"]), "replay", levelorder=bool(rp["case"].get("levelorder")))
     return dict(failures=out.oracle_failures[:8], disagreements=out.disagreements[:5], property_holds=not out.oracle_failures)
